@@ -27,7 +27,9 @@ TRUSTED = [
     "length and has DC gain 1 (fcn_cosine(b)(0)=0); window weights sum to a non-zero number; the field has "
     "characteristic 0",
     "float64 n*pad modelled exactly by integer round-to-nearest-even to 53 bits (IEEE-754 host fact)",
-    "harness/pC20.py generators, canonicalisers, tolerances and oracle",
+    "harness/pC20.py generators, canonicalisers, tolerances and oracle; during the cadzow phase numba.jit is the "
+    "identity decorator (iblutil's ismember2d otherwise re-compiles its helper on every call); one layout per run "
+    "is evaluated with and without it and compared",
     "extraction (ExtrOcamlBasic only; Z/positive/Q kept inductive), harness/driver.ml, ocamlfind ocamlopt; a sample "
     "of the same cases is re-evaluated by the kernel (vm_compute)",
 ]
@@ -118,6 +120,17 @@ def gen_venn(ctx, ncases):
         for s in range(n):
             trains.append(gen_train(rng, tmax, hi, max(1, nsp + rng.randrange(-2, 3)),
                                     base=trains[0] if trains else None))
+        r = rng.random()
+        if r < 0.15 and chunk <= tmax:
+            # spikes exactly on chunk boundaries (first sample of a chunk), in one or all sorters
+            for t in (trains if rng.random() < 0.5 else trains[:1]):
+                t.append((chunk * rng.randrange(0, tmax // chunk + 1), rng.randrange(0, nchan)))
+                t.sort(key=lambda p: p[0])
+        last = max([sp[0] for t in trains for sp in t] or [0])
+        if 0.15 <= r < 0.40 and last > 0:
+            # chunk size equal to / a divisor of the sample index of the last spike
+            divs = [d for d in range(1, last + 1) if last % d == 0 and last // d <= 60]
+            chunk = rng.choice(divs + [last, last])
         if rng.random() < 0.03:
             trains[rng.randrange(n)] = []    # np.max of an empty train: ValueError (outside the domain)
         cases.append({"trains": trains, "xbin": xbin, "ybin": ybin, "nchan": nchan, "chunk": chunk, "fs": 30000})
@@ -265,6 +278,20 @@ def gen_abscissae(rng, n, maxgap):
 # ----------------------------------------------------------------------------
 # 5. cadzow
 # ----------------------------------------------------------------------------
+@contextlib.contextmanager
+def plain_numba():
+    """iblutil.numerical.ismember2d re-declares (and so re-compiles, 0.3 s) a numba-jitted helper on
+    every call.  Inside this context numba.jit is the identity decorator: the same helper runs as
+    plain Python.  One layout per run is evaluated both ways and compared (see _run)."""
+    import numba
+    orig = numba.jit
+    numba.jit = lambda *a, **k: (a[0] if a and callable(a[0]) and not k else (lambda f: f))
+    try:
+        yield
+    finally:
+        numba.jit = orig
+
+
 def traj_call(x, y):
     from ibldsp import cadzow
     try:
@@ -281,7 +308,7 @@ def layouts(ctx):
     """site layouts: complete grids 1-4 columns x 4-40 rows, checkerboards (NP1), subsets, shuffles"""
     rng = ctx.rng
     out = []
-    rows_all = list(range(4, 41)) if ctx.thorough() else [4, 5, 7, 12, 24, 40]
+    rows_all = list(range(4, 41)) if ctx.thorough() else [4, 5, 6, 7, 9, 12, 13, 17, 24, 37, 40]
     for ncol in (1, 2, 3, 4):
         for nrow in rows_all:
             if ncol * nrow > (96 if not ctx.thorough() else 160):
@@ -577,10 +604,7 @@ def _run(ctx):
                 ctx.fail("smooth.lp raised %r" % (ex_,), desc, {"kind": "lp_exception"})
                 continue
             tag = {"kind": "lp_length", "pad_zero": pad == 0}
-            if pad == 0 and len(oc) == n and obs[-n - 1] == n:
-                count("lp_pad_zero_keeps_length")     # F-C20-a repaired: the property holds, the faithful model does not apply
-            else:
-                add([4, m, e] + x, obs, desc)
+            add([4, m, e] + x, obs, desc)
             if len(oc) != n:
                 ctx.fail("smooth.lp changes the length (%d -> %d)" % (n, len(oc)), desc, tag)
             else:
@@ -687,7 +711,18 @@ def _run(ctx):
 
     lap("savgol")
     # ---------------- cadzow / svd ----------------
-    for kind, ncol, nrow, sites in layouts(ctx):
+    all_layouts = layouts(ctx)
+    if all_layouts:      # the jitted path of ismember2d, once, against the plain path used below
+        _, _, _, sites0 = all_layouts[len(all_layouts) // 2]
+        jit_obs = traj_call([p[0] for p in sites0], [p[1] for p in sites0])
+        with plain_numba():
+            plain_obs = traj_call([p[0] for p in sites0], [p[1] for p in sites0])
+        if jit_obs != plain_obs:
+            ctx.disagree("cadzow.trajectory differs between the jitted and the plain ismember2d helper",
+                         {"fn": "cadzow.trajectory", "sites": sites0})
+    stack_ = contextlib.ExitStack()
+    stack_.enter_context(plain_numba())
+    for kind, ncol, nrow, sites in all_layouts:
         desc = {"fn": "cadzow.trajectory", "layout": kind, "ncol": ncol, "nrow": nrow, "sites": sites}
         obs = traj_call([p[0] for p in sites], [p[1] for p in sites])
         count("layout_" + kind)
@@ -703,7 +738,8 @@ def _run(ctx):
         nlay = dist.get("layouts_denoised", 0)
         count("layouts_denoised")
         cadzow_oracle(ctx, kind, ncol, nrow, sites, meas, full=min(obs[0], obs[1]),
-                      light=(not T) and nlay % 3 != 0)
+                      light=False)
+    stack_.close()
     if meas.get("cadzow_noise_ratio_rank1"):
         r = meas["cadzow_noise_ratio_rank1"]
         meas["cadzow_noise_ratio_rank1"] = {"n": len(r), "max": max(r), "median": float(np.median(r))}
